@@ -17,16 +17,20 @@ from . import common
 
 EXPLANATION = (
     "The jinja2 templates are parsed (never rendered) into a model of macros, import aliases and "
-    "expression outputs with their enclosing XML element / attribute; the *from_et* parsers are "
-    "scanned for the XML names they read and, by def-use, the dataclass field each one flows "
-    "into. Rules: (R0) every template parses, every alias.macro() call resolves to an imported "
-    "file that defines the macro with a compatible arity, every global is registered; (R1) every "
-    "field with an XML source is written (in an output / loop / set / argument position), every "
-    "element and attribute name a parser reads is emitted by some template, and an element that "
-    "directly wraps a field is paired with the field the parser stores it in; (R2) free-text "
-    "fields are XML-escaped; (R3) every ID-REF is accompanied by DOCREF/DOCTYPE; (R4) an `if o.A` "
-    "block writes A, not a sibling attribute; (R5) the three loaders classify file names by the "
-    "same table; (R6) the writer memoises nothing across databases.")
+    "expression outputs with their enclosing XML element / attribute. The classes of the values "
+    "flowing through the templates are inferred from the Python annotations (render variables of "
+    "write_pdx_file -> attribute accesses -> loops / set -> macro parameters, joined over all "
+    "call sites to a fixpoint). The *from_et* parsers are scanned for the XML names they read and, "
+    "by def-use, the dataclass field each one flows into. Rules: (R0) every template parses; "
+    "every alias.macro() call resolves to an imported file defining the macro with a compatible "
+    "arity; every global, name and attribute used exists; (R1) for every (class, parsed field) "
+    "pair some template writes the field from an object of that class; every XML name a parser "
+    "reads or dispatches on is emitted; an element wrapping a field is paired with the field the "
+    "parser stores it in; (R2) free-text fields are XML-escaped and make_xml_attrib escapes; (R3) "
+    "every ID-REF is accompanied by DOCREF/DOCTYPE taken from ref_docs[0]; (R4) a guarded block "
+    "writes the attribute it tested, no write depends on the value of another parsed attribute, "
+    "and if/elif chains only range over alternatives of one choice; (R5) the three loaders "
+    "classify file names by the same tests; (R6) the writer memoises nothing across databases.")
 ASSUMPTIONS = [
     "structural equality of a reloaded database, byte-identical rewrites and file-order "
     "independence are not decided",
